@@ -1345,23 +1345,7 @@ func (w *World) freshBytes(v ssa.Value, fn *ssa.Function, depth int) (bool, stri
 	case *ssa.Call:
 		sc := x.Call.StaticCallee()
 		if sc != nil && qualifiedFnName(sc) == "(*bytes.Buffer).Bytes" {
-			if nb, ok := x.Call.Args[0].(*ssa.Call); ok && nb.Call.StaticCallee() != nil && qualifiedFnName(nb.Call.StaticCallee()) == "bytes.NewBuffer" {
-				// the buffer adopts its argument as initial storage
-				if ok2, f := w.freshBytes(nb.Call.Args[0], fn, depth+1); !ok2 {
-					return false, "bytes of a bytes.Buffer built over memory that outlives the call: " + f
-				}
-				return true, "bytes of a bytes.Buffer created in this call at " + w.instrPos(nb)
-			}
-			if nb, ok := x.Call.Args[0].(*ssa.Call); ok && nb.Call.StaticCallee() != nil && qualifiedFnName(nb.Call.StaticCallee()) == "bytes.NewBufferString" {
-				return true, "bytes of a bytes.Buffer created in this call at " + w.instrPos(nb)
-			}
-			if al, ok := x.Call.Args[0].(*ssa.Alloc); ok && al.Parent() == fn && namedIs(al.Type(), "bytes", "Buffer") {
-				// new(bytes.Buffer), &bytes.Buffer{} or a local variable: its storage
-				// starts empty and is private to this activation unless a slice is
-				// planted in it, which only bytes.NewBuffer can do
-				return true, "bytes of a bytes.Buffer allocated in this call at " + w.instrPos(al)
-			}
-			return false, "bytes of a buffer that was not created in this call (" + x.Call.Args[0].String() + "): the returned slice aliases memory that outlives the call"
+			return w.freshBuffer(x.Call.Args[0], fn, depth+1)
 		}
 		if sc != nil && w.inPkg(sc) {
 			return true, "forwards the result of " + fnName(sc)
